@@ -4,6 +4,14 @@
 Usage: neutralcheck.py [--tests] [dir-or-diff ...]"""
 import os, re, shutil, subprocess, sys, tempfile
 from concurrent.futures import ThreadPoolExecutor
+def add_worktree(wt):
+    """git worktree add takes a lock on the repository: retry when another tool holds it"""
+    import time
+    for attempt in range(30):
+        if subprocess.call(["git","-C","/repo","worktree","add","--detach",wt,"HEAD"],stdout=subprocess.DEVNULL,stderr=subprocess.DEVNULL) == 0: return
+        time.sleep(0.5 + attempt * 0.2)
+    raise RuntimeError("git worktree add failed for " + wt)
+
 ENV = dict(os.environ, GOFLAGS="-mod=mod", GOPROXY="off", GOSUMDB="off", GOTOOLCHAIN="local", GOWORK="off")
 tests = "--tests" in sys.argv
 args = [a for a in sys.argv[1:] if not a.startswith("--")]
@@ -23,7 +31,7 @@ def one(item):
     name, patch = item
     wt = tempfile.mkdtemp(prefix="neutral-", dir="/tmp"); os.rmdir(wt)
     try:
-        subprocess.check_call(["git","-C","/repo","worktree","add","--detach",wt,"HEAD"],stdout=subprocess.DEVNULL,stderr=subprocess.DEVNULL)
+        add_worktree(wt)
         if subprocess.run(["git","apply",patch],cwd=wt,capture_output=True).returncode != 0:
             return name, "PATCH DOES NOT APPLY", []
         if subprocess.run("go build ./...",cwd=wt,shell=True,env=ENV,capture_output=True).returncode != 0:
